@@ -6,11 +6,11 @@ SRC=$1; ID=$2; PROP=$3
 WT=/tmp/seedwt_$ID
 rm -rf $WT; git -C /repo worktree prune; git -C /repo worktree add -q --detach $WT HEAD || exit 2
 OUT=/verif/seeded/$ID; mkdir -p $OUT
-cp $SRC/patch.diff $OUT/patch.diff; cp $SRC/demo.cpp $OUT/demo.cpp; cp $SRC/meta.txt $OUT/agent_meta.txt 2>/dev/null
+[ "$SRC" = "$OUT" ] || { cp $SRC/patch.diff $OUT/patch.diff; cp $SRC/demo.cpp $OUT/demo.cpp; cp $SRC/meta.txt $OUT/agent_meta.txt 2>/dev/null; }
 res() { echo "$1" >> $OUT/confirm.log; }
 : > $OUT/confirm.log
 cd $WT
-SAN=""; grep -q "sanitize=address" $SRC/meta.txt 2>/dev/null && SAN="-fsanitize=address -g"
+SAN=""; grep -q "sanitize=address" $OUT/agent_meta.txt 2>/dev/null && SAN="-fsanitize=address -g"
 g++ -std=c++14 $SAN -I$WT/include $OUT/demo.cpp -o $WT/demo_clean 2>$WT/demo_clean.err; ( $WT/demo_clean >/dev/null 2>&1 ); res "demo on clean tree: exit $?"
 DEMO_CLEAN=$(tail -1 $OUT/confirm.log)
 if ! git apply $OUT/patch.diff; then res "patch does not apply"; git -C /repo worktree remove --force $WT; exit 1; fi
